@@ -6,6 +6,7 @@ import (
 	"fmt"
 	"runtime/debug"
 	"strings"
+	"sync"
 	"testing"
 	"time"
 
@@ -121,6 +122,8 @@ var failPool = []failing{
 	{"error-in-list-loop", `func(){ for zfx = [1, 2, 3] { error("zf list loop") } }()`, false, false},
 	{"error-in-cond-loop", `func(){ zfn = 3; for zfn > 0 { zfn = zfn - 1; error("zf cond loop") } }()`, false, false},
 	{"error-in-loop-in-func", `func(){ for zfi = 2 { for zfj = 2 { (x => error("zf nested"))(zfj) } } }()`, false, false},
+	{"error-deep-in-recursion", `func zfdeep(n) { if n == 0 { error("zf bottom") }; 1 + zfdeep(n - 1) }; zfdeep(25)`, false, false},
+	{"type-error-deep-in-recursion", `zfd2 = n => { if n == 0 { return 1 + "zf" }; [zfd2(n - 1)] }; zfd2(20)`, false, false},
 	{"depth-overflow", `func(){ zfr = n => zfr(n + 1); zfr(0) }()`, false, true},
 	{"depth-overflow-named", `func zfrec(n) { 1 + zfrec(n + 1) }; zfrec(0)`, false, true},
 	{"depth-overflow-in-loop", `for zfi = 2 { (func(){ self() })() }`, false, true},
@@ -137,6 +140,35 @@ var failPool = []failing{
 	{"div-zero-in-func", `func(){ zfd = 0; 1 / zfd }()`, false, false},
 }
 
+// The deepest recursion the depth limit allows on a fresh session: a succeeding input that needs the whole
+// budget notices any of it that a failed input did not give back. (Reads a global, so it is never served
+// from the function-result cache.)
+const probeDef = "zzg = 1; func zzprobe(n) { if n == 0 { return zzg }; 1 + zzprobe(n - 1) }"
+
+var probeOnce sync.Once
+var probeMax int
+
+func probeCall() string {
+	probeOnce.Do(func() {
+		fits := func(k int) bool {
+			s := sess.New(cfg)
+			s.Run(gen.TypedPrelude)
+			s.Run(probeDef)
+			return !s.RunWith(fmt.Sprintf("zzprobe(%d)", k), okDeadline).Failed()
+		}
+		lo, hi := 1, 400 // fits(lo), !fits(hi)
+		for hi-lo > 1 {
+			if mid := (lo + hi) / 2; fits(mid) {
+				lo = mid
+			} else {
+				hi = mid
+			}
+		}
+		probeMax = lo
+	})
+	return fmt.Sprintf("println(\"probe\", zzprobe(%d))", probeMax)
+}
+
 func TestHistories(t *testing.T) {
 	pbt.Check(t, 1200, 120000, func(rt *rapid.T) {
 		g := gen.NewTGen(rt, gen.TCfg{MaxDepth: 2, MaxStmts: 3, MaxBlockDepth: 2, MaxParams: 3, MaxLoopDepth: 2,
@@ -148,6 +180,8 @@ func TestHistories(t *testing.T) {
 			"println(zzshow(1))",
 			"for zzk = 3 { println(\"loop\", zzk) }",
 			"zzrec = n => { if n <= 0 { return 0 }; n + zzrec(n - 1) }; println(zzrec(20))",
+			probeDef,
+			probeCall(),
 		}
 		var c Case
 		nfail, deep := 0, false
@@ -201,7 +235,7 @@ func TestEachKind(t *testing.T) {
 			c.Steps = append(c.Steps, Step{Src: f.src, Fail: f.kind, Timeout: f.timeout})
 		}
 		c.Steps = append(c.Steps, Step{Src: "println(show(2))"}, Step{Src: "for j = 3 { println(j) }"}, Step{Src: "x = [1, 2, 3]; x[0] = show(3); println(x)"},
-			Step{Src: "deep = n => { if n <= 0 { return 0 }; 1 + deep(n - 1) }; println(deep(25))"})
+			Step{Src: "deep = n => { if n <= 0 { return 0 }; 1 + deep(n - 1) }; println(deep(25))"}, Step{Src: probeDef}, Step{Src: probeCall()})
 		inconclusive, err := check(c)
 		if err != nil {
 			pbt.Fail(t, "each-kind", c, "failure kind %s: %v", f.kind, err)
